@@ -47,6 +47,9 @@ pub struct Script {
     /// (writer index, write call number starting at 1) that fail
     pub write_fail: Vec<(usize, usize)>,
     pub md5_check: bool,
+    /// keep at most this many bytes of written data per writer (hostile
+    /// workloads measure the receiver's heap, not the monitor's)
+    pub keep_data: usize,
 }
 
 impl Default for Script {
@@ -56,6 +59,7 @@ impl Default for Script {
             open_fail: vec![],
             write_fail: vec![],
             md5_check: true,
+            keep_data: usize::MAX,
         }
     }
 }
@@ -83,6 +87,7 @@ pub struct WriterRec {
     pub answer: BuilderAnswer,
     pub state: WState,
     pub data: Vec<u8>,
+    pub bytes_written: usize,
     pub nb_open: usize,
     pub nb_write: usize,
     pub nb_terminal: usize,
@@ -202,6 +207,7 @@ struct MonWriter {
     open_fails: bool,
     write_fail_at: Vec<usize>,
     md5_check: bool,
+    keep_data: usize,
 }
 
 impl ObjectWriterBuilder for MonBuilder {
@@ -233,6 +239,7 @@ impl ObjectWriterBuilder for MonBuilder {
             answer,
             state: WState::New,
             data: vec![],
+            bytes_written: 0,
             nb_open: 0,
             nb_write: 0,
             nb_terminal: 0,
@@ -254,6 +261,7 @@ impl ObjectWriterBuilder for MonBuilder {
                     .map(|(_, n)| *n)
                     .collect(),
                 md5_check: self.script.md5_check,
+                keep_data: self.script.keep_data,
             })),
             BuilderAnswer::AlreadyReceived => ObjectWriterBuilderResult::ObjectAlreadyReceived,
             BuilderAnswer::Abort => ObjectWriterBuilderResult::Abort,
@@ -360,7 +368,9 @@ impl ObjectWriter for MonWriter {
             w.illegal.push("write after a failed write".into());
         }
         if ok {
-            w.data.extend_from_slice(data);
+            let room = self.keep_data.saturating_sub(w.data.len());
+            w.data.extend_from_slice(&data[..data.len().min(room)]);
+            w.bytes_written += data.len();
         } else {
             w.write_failed = true;
         }
